@@ -238,6 +238,9 @@ class Tx:
         self.guards = []
         self.depth = 0
         self.post = None
+        self.signatures = {}
+        self.skip_calls = False
+        self.effects = []
 
     # -- helpers --------------------------------------------------------
     def _sym(self, name):
@@ -258,6 +261,9 @@ class Tx:
         t.asserts = self.asserts
         t.guards = self.guards
         t.post = self.post
+        t.signatures = self.signatures
+        t.skip_calls = self.skip_calls
+        t.effects = self.effects
         return t
 
     # -- conditions -----------------------------------------------------
@@ -289,6 +295,12 @@ class Tx:
         if isinstance(node, ast.Compare):
             left = self.expr(node.left)
             parts = []
+            if len(node.ops) == 1 and isinstance(node.ops[0], (ast.In, ast.NotIn)) and \
+                    isinstance(node.comparators[0], (ast.List, ast.Tuple, ast.Set)):
+                # membership in a literal collection: a disjunction of equalities
+                alts = [self._cmp(ast.Eq, left, self.expr(e)) for e in node.comparators[0].elts]
+                c = c_or(*alts) if alts else False
+                return c if isinstance(node.ops[0], ast.In) else c_not(c)
             for op, right_n in zip(node.ops, node.comparators):
                 right = self.expr(right_n)
                 parts.append(self._cmp(type(op), left, right))
@@ -555,8 +567,27 @@ class Tx:
             return self._inline(self.inline[name], n, args, kws, name)
         if not self.opaque_calls:
             raise Unsupported(f"call {name}")
-        flat = list(args) + [kws[k] for k in sorted(kws)]
-        kwnames = sorted(kws)
+        if name in self.signatures:
+            # bind keyword arguments to the callee's parameter order (resolved callee)
+            params = self.signatures[name]
+            flat = []
+            for i_p, p_name in enumerate(params):
+                if i_p < len(args):
+                    flat.append(args[i_p])
+                elif p_name in kws:
+                    flat.append(kws[p_name])
+                else:
+                    flat.append(E(S(f"<default:{p_name}>")))
+            extra = [k for k in kws if k not in params]
+            for k in sorted(extra):
+                flat.append(kws[k])
+            kwnames = sorted(extra)
+            while flat and isinstance(flat[-1], E) and isinstance(flat[-1].e, sp.Symbol) \
+                    and flat[-1].e.name.startswith("<default:"):
+                flat.pop()
+        else:
+            flat = list(args) + [kws[k] for k in sorted(kws)]
+            kwnames = sorted(kws)
         fn_name = name + ("{" + ",".join(kwnames) + "}" if kwnames else "")
 
         def f(*xs):
@@ -618,6 +649,9 @@ class Tx:
                 if isinstance(st.value, ast.Call):
                     cn = norm(st.value.func)
                     if cn in ("print", "warnings.warn", "warn"):
+                        continue
+                    if self.skip_calls:
+                        self.effects.append(st)
                         continue
                 raise Unsupported(f"expression statement {norm(st)[:60]}")
             if isinstance(st, ast.Assert):
@@ -775,7 +809,33 @@ def _order_constraints(atoms):
     for key, group in pairs.items():
         if len(group) > 1:
             cons.append(tuple(group))  # at most one of them true
+    # x == K1 and x == K2 for distinct constants K1, K2 cannot both hold
+    by_var = {}
+    for a in atoms:
+        m = re.match(r"^eq\((.*)\)$", a)
+        if not m:
+            continue
+        parts = _split_top(m.group(1))
+        if len(parts) != 2:
+            continue
+        consts = [p for p in parts if _is_constant_name(p)]
+        others = [p for p in parts if not _is_constant_name(p)]
+        if len(consts) == 1 and len(others) == 1:
+            by_var.setdefault(others[0], []).append(a)
+    for var, group in by_var.items():
+        if len(group) > 1:
+            cons.append(tuple(group))
     return cons
+
+
+def _is_constant_name(p):
+    """quoted strings, numbers, None/True/False, ALL_CAPS class constants (Audit.AUDIT_TYPE.POLLING)."""
+    import re
+
+    if p[:1] in "'\"" or re.match(r"^-?[0-9./]+$", p) or p in ("None", "True", "False"):
+        return True
+    last = p.split(".")[-1]
+    return bool(re.match(r"^[A-Z][A-Z0-9_]*$", last)) and "(" not in p
 
 
 def _split_top(s):
